@@ -1,0 +1,84 @@
+/*
+ * Verification hooks. Compiled only with `--cfg starlark_verif`; never part of a normal build.
+ */
+
+//! Hooks used by the external verification harness (`--cfg starlark_verif` only).
+
+use std::cell::Cell;
+use std::sync::atomic::AtomicBool;
+use std::sync::atomic::AtomicU64;
+use std::sync::atomic::Ordering;
+
+thread_local! {
+    /// Collect at every k-th GC safepoint (0 = use the regular threshold only).
+    static GC_EVERY: Cell<u64> = const { Cell::new(0) };
+    /// Bit `i % 64` set = collect at safepoint `i` (0 = unused).
+    static GC_MASK: Cell<u64> = const { Cell::new(0) };
+    static SAFEPOINTS: Cell<u64> = const { Cell::new(0) };
+    static COLLECTIONS: Cell<u64> = const { Cell::new(0) };
+}
+
+static POISON: AtomicBool = AtomicBool::new(true);
+static POISONED_BYTES: AtomicU64 = AtomicU64::new(0);
+
+/// Byte written over arena memory when an arena is dropped.
+pub const POISON_BYTE: u8 = 0x5A;
+
+/// Force a collection at every `k`-th safepoint of this thread (0 switches it off).
+pub fn set_gc_every(k: u64) {
+    GC_EVERY.with(|c| c.set(k));
+}
+
+/// Force a collection at safepoint `i` whenever bit `i % 64` of `mask` is set.
+pub fn set_gc_mask(mask: u64) {
+    GC_MASK.with(|c| c.set(mask));
+}
+
+/// Reset this thread's safepoint and collection counters.
+pub fn reset_gc_counters() {
+    SAFEPOINTS.with(|c| c.set(0));
+    COLLECTIONS.with(|c| c.set(0));
+}
+
+/// Safepoints reached by this thread since the last reset.
+pub fn gc_safepoints() -> u64 {
+    SAFEPOINTS.with(|c| c.get())
+}
+
+/// Collections run at safepoints by this thread since the last reset.
+pub fn gc_collections() -> u64 {
+    COLLECTIONS.with(|c| c.get())
+}
+
+/// Switch arena poisoning on drop on or off (process wide; default on).
+pub fn set_poison(on: bool) {
+    POISON.store(on, Ordering::SeqCst);
+}
+
+/// Total number of arena bytes overwritten so far (process wide).
+pub fn poisoned_bytes() -> u64 {
+    POISONED_BYTES.load(Ordering::SeqCst)
+}
+
+pub(crate) fn gc_forced_at_safepoint() -> bool {
+    let i = SAFEPOINTS.with(|c| {
+        let i = c.get();
+        c.set(i + 1);
+        i
+    });
+    let k = GC_EVERY.with(|c| c.get());
+    let mask = GC_MASK.with(|c| c.get());
+    (k != 0 && (i + 1) % k == 0) || (mask >> (i % 64)) & 1 == 1
+}
+
+pub(crate) fn note_collection() {
+    COLLECTIONS.with(|c| c.set(c.get() + 1));
+}
+
+pub(crate) fn poison_enabled() -> bool {
+    POISON.load(Ordering::Relaxed)
+}
+
+pub(crate) fn note_poisoned(bytes: usize) {
+    POISONED_BYTES.fetch_add(bytes as u64, Ordering::Relaxed);
+}
